@@ -1270,6 +1270,71 @@ func shapeDiff(o, t reflect.Type, path string) string {
 	return ""
 }
 
+// fillTranslated sets every leaf it can reach in a translated value (allocating the structs on the way) and returns how
+// many it set; leaves of kinds it has no value for stay unset
+func fillTranslated(v reflect.Value) int {
+	n := 0
+	for i := 0; i < v.NumField(); i++ {
+		f := v.Field(i)
+		if !f.CanSet() {
+			continue
+		}
+		switch f.Kind() {
+		case reflect.Ptr:
+			switch e := f.Type().Elem(); e.Kind() {
+			case reflect.Struct:
+				if e == reflect.TypeOf(time.Time{}) {
+					continue
+				}
+				f.Set(reflect.New(e))
+				n += fillTranslated(f.Elem())
+			case reflect.Int, reflect.Int8, reflect.Int16, reflect.Int32, reflect.Int64:
+				f.Set(reflect.New(e))
+				f.Elem().SetInt(1)
+				n++
+			case reflect.Uint, reflect.Uint8, reflect.Uint16, reflect.Uint32, reflect.Uint64, reflect.Uintptr:
+				f.Set(reflect.New(e))
+				f.Elem().SetUint(1)
+				n++
+			case reflect.String:
+				f.Set(reflect.New(e))
+				f.Elem().SetString("x")
+				n++
+			case reflect.Bool:
+				f.Set(reflect.New(e))
+				f.Elem().SetBool(true)
+				n++
+			case reflect.Float32, reflect.Float64:
+				f.Set(reflect.New(e))
+				f.Elem().SetFloat(1.5)
+				n++
+			}
+		case reflect.Struct:
+			if f.Type() != reflect.TypeOf(time.Time{}) {
+				n += fillTranslated(f)
+			}
+		case reflect.Slice:
+			f.Set(reflect.MakeSlice(f.Type(), 0, 1))
+			n++
+		case reflect.Map:
+			f.Set(reflect.MakeMap(f.Type()))
+			n++
+		}
+	}
+	return n
+}
+
+// countSet: leaves of the case that are set in a value of the original (pointerified) type
+func (r *srcRun) countSet(v reflect.Value) int {
+	n := 0
+	for _, l := range r.c.Expect.Leaves {
+		if _, set := r.locate(v, l.ID); set {
+			n++
+		}
+	}
+	return n
+}
+
 // the bare transformer: an empty translated value reverses to an entirely unset original
 func (r *srcRun) runEmptyReverse() {
 	chains := map[string][]transform.Mangler{
@@ -1313,6 +1378,26 @@ func (r *srcRun) runEmptyReverse() {
 			for i, f := range r.c.Fields {
 				if f.Nest != "" && f.Nest != "emb" && !back.Field(i).IsNil() {
 					r.add("C10", name, "an empty translated value reverses to a value whose nested struct %s is allocated", goName(f.Name))
+				}
+			}
+			// and a translated value with every reachable leaf filled reverses to a value with as many leaves set
+			if strings.HasPrefix(name, "anonflatten") || name == "alias+setslice" {
+				tf2 := transform.NewTransformer(r.ptyp, ms...)
+				val2, err := tf2.Translate()
+				if err != nil {
+					return
+				}
+				filled := fillTranslated(val2)
+				back2, err := tf2.ReverseTranslate(val2)
+				if err != nil {
+					// (filling the alias copies as well as the primaries is rightly refused)
+					if !strings.Contains(name, "alias") {
+						r.add("C10", name, "ReverseTranslate of a filled value failed: %v", err)
+					}
+					return
+				}
+				if got := r.countSet(back2); filled > 0 && got == 0 {
+					r.add("C10", name, "%d leaves were filled in the translated value, none is set after reverse translation", filled)
 				}
 			}
 		})
